@@ -39,6 +39,27 @@ def gen_rt(base, name, opts):
     d = os.path.join(base, name)
     out = os.path.join(d, "gen")
     os.makedirs(out)
+    if name == "rt-kinds":
+        # every spelling of the integer and real types (docs/types.rst), in a C library whose functions Fortran
+        # binds to directly: argument by value, by pointer, result
+        spell = ["short", "short int", "unsigned short", "unsigned short int", "int", "unsigned", "unsigned int", "long",
+                 "long int", "unsigned long", "unsigned long int", "long long", "long long int", "unsigned long long",
+                 "unsigned long long int", "float", "double", "size_t", "int8_t", "int16_t", "int32_t", "int64_t",
+                 "uint8_t", "uint16_t", "uint32_t", "uint64_t"]
+        decls, protos = [], []
+        for i, sp in enumerate(spell):
+            for d_ in ("%s k%d_val(%s a)" % (sp, i, sp), "void k%d_ptr(%s *a +intent(inout))" % (i, sp), "%s k%d_res(void)" % (sp, i)):
+                decls.append({"decl": d_})
+                protos.append(d_.split(" +")[0].rstrip(")") + (")" if "+" in d_ else ")") + ";")
+        y = {"library": "kinds", "language": "c", "cxx_header": "kinds.h",
+             "options": dict({"debug": True, "wrap_fortran": True, "wrap_python": False, "wrap_lua": False}, **opts),
+             "declarations": decls}
+        with open(os.path.join(d, "kinds.yaml"), "w") as f:
+            yaml.safe_dump(y, f, default_flow_style=False, sort_keys=False)
+        open(os.path.join(d, "kinds.h"), "w").write("#include <stddef.h>\n#include <stdint.h>\n" + "\n".join(
+            p_.replace("))", ")") for p_ in protos) + "\n")
+        rc, so, se = shroudrun.run(["--outdir", out, "--logdir", out, os.path.join(d, "kinds.yaml")])
+        return name, out, rc, se, d
     if name.startswith("rt-solo"):
         from rt import libgen
         lib = libgen.solo_libraries(**opts)[int(name.split("-")[2])]
@@ -171,11 +192,11 @@ def run(tier):
                 gens += list(ex.map(lambda a: gen_rt(base, a[0], a[1]),
                                     [("rt-cxx", {}), ("rt-cxx-cfi", {"F_CFI": True}), ("rt-wide", {}),
                                      ("rt-wide-cfi", {"F_CFI": True})] +
-                                    [("rt-solo-%d" % k, {}) for k in range(nsolo)]))
+                                    [("rt-solo-%d" % k, {}) for k in range(nsolo)] + [("rt-kinds", {})]))
             for name, out, rc, se, user in gens:
                 if rc != 0:
                     raise MachineryError("generation of %s failed: %s" % (name, se[-300:]))
-                traces += collect(name, out, user if not name.startswith("rt-") else None)
+                traces += collect(name, out, user if (not name.startswith("rt-") or name == "rt-kinds") else None)
         traces += registry_pairs()
         judged, skipped_user, skipped_unknown = [], 0, 0
         for t in traces:
